@@ -705,7 +705,7 @@ TxBinding(cfg, s, ev) ==
 
 TxDidUpdate(cfg, s, ev) ==   \* ev.tx = accounts to remove, ev.datas = accounts to keep, ev.commit = past seed ("" = fresh)
     LET w0 == Work(s)
-        rm == [i \in 1..Len(ev.tx) |-> AccDid(ev.tx[i], ev.did)]
+        rm == [i \in 1..Len(ev.tx) |-> AccDid(ev.tx[i], ev.did)] \o ev.ro    \* ev.ro: further account dids named outright
         keep == [i \in 1..Len(ev.datas) |-> AccDid(ev.datas[i], ev.did)]
         lst == AccListOf(s, ev.did)
     IN IF BoundDid(s, ev.creator) # ev.did THEN Tx(s, Fail(w0, "invalid creator"))
